@@ -934,6 +934,21 @@ impl LsmCommitEnv {
 			task_manager: Some(task_manager),
 		})
 	}
+
+	/// Adds the batch to `memtable`, the active memtable (the caller holds its read lock).
+	///
+	/// A memtable rotation since `write` has moved the WAL on: the batch's record then sits in a
+	/// segment that the flush of the rotated memtable retires, while the batch goes to this
+	/// memtable. It is logged again, in the segment this memtable belongs to, before it is added.
+	fn add_to_active(&self, memtable: &MemTable, batch: &Batch) -> Result<()> {
+		if batch.wal_number.is_some_and(|logged_in| memtable.get_wal_number() > logged_in) {
+			let enc_bytes = batch.encode()?;
+			let mut wal_guard = self.core.wal.write();
+			wal_guard.append(&enc_bytes)?;
+			wal_guard.sync()?;
+		}
+		memtable.add(batch)
+	}
 }
 
 impl CommitEnv for LsmCommitEnv {
@@ -970,6 +985,7 @@ impl CommitEnv for LsmCommitEnv {
 		if sync {
 			wal_guard.sync()?;
 		}
+		processed_batch.wal_number = Some(wal_guard.get_active_log_number());
 		drop(wal_guard);
 
 		Ok(processed_batch)
@@ -980,7 +996,7 @@ impl CommitEnv for LsmCommitEnv {
 		// Try to add to current memtable
 		let result = {
 			let active_memtable = self.core.active_memtable.read()?;
-			active_memtable.add(batch)
+			self.add_to_active(&active_memtable, batch)
 		};
 
 		match result {
@@ -998,7 +1014,7 @@ impl CommitEnv for LsmCommitEnv {
 
 				// Retry on new memtable - must succeed
 				let active_memtable = self.core.active_memtable.read()?;
-				active_memtable.add(batch)
+				self.add_to_active(&active_memtable, batch)
 			}
 			Err(e) => Err(e),
 		}
